@@ -193,7 +193,8 @@ class PDFXRef(PDFBaseXRef):
     def load_trailer(self, parser: PDFParser) -> None:
         try:
             (_, kwd) = parser.nexttoken()
-            assert kwd is KWD(b"trailer"), str(kwd)
+            if kwd is not KWD(b"trailer"):
+                raise PDFNoValidXRef(f"Trailer not found: {kwd!r}")
             (_, dic) = parser.nextobject()
         except PSEOF:
             x = parser.pop(1)
@@ -1076,8 +1077,8 @@ class PDFDocument:
             if line == b"startxref":
                 log.debug("xref found: pos=%r", prev)
 
-                if not prev.isdigit():
-                    raise PDFNoValidXRef(f"Invalid xref position: {prev!r}")
+                if not prev.isdigit() or len(prev) > 18:
+                    raise PDFNoValidXRef(f"Invalid xref position: {prev[:32]!r}")
 
                 start = int(prev)
 
